@@ -46,6 +46,13 @@ impl BlockFormatter for BlockIndentRemover {
 
         let indent_ofs = match find_prev_line_break_pos(content, bytes, start_byte_pos, true) {
             Some(pos) => start_byte_pos - pos - 1,
+            // first line of the content: everything before the position is its indentation
+            None if bytes[..start_byte_pos]
+                .iter()
+                .all(|b| *b == b' ' || *b == b'\t') =>
+            {
+                start_byte_pos
+            }
             None => 0,
         };
         let mut current_pos = start_byte_pos + 1;
